@@ -1413,7 +1413,10 @@ func (m *RadioTap) DecodeFromBytes(data []byte, df gopacket.DecodeFeedback) erro
 			headlen += 2
 		}
 		if headlen%4 == 2 {
-			payload = append(payload[:headlen], payload[headlen+2:len(payload)]...)
+			// Build the unpadded frame in a new slice: removing the two bytes in place
+			// would shift the rest of the frame inside the caller's buffer.
+			unpadded := append([]byte(nil), payload[:headlen]...)
+			payload = append(unpadded, payload[headlen+2:]...)
 		}
 	}
 
